@@ -22,7 +22,7 @@ ASSUMPTIONS = ['sample names are [A-Za-z0-9_]+ ; a share of names end in .fa/.fa
                'the build of the remaining samples is a run of the same binary (differential); the model is independent']
 REQUIRED = {t: ['route:cli', 'route:file', 'route:file-no-trailing-newline', 'route:file-blank-lines', 'inplace', 'with-o',
                 'refuse:unknown', 'refuse:all', 'refuse:all-with-repeat', 'kmers_removed', 'nonadjacent_deletions', 'width64', 'width128', 'pretreated_files',
-                'stored_rows_compared', 'deletions_leaving_255..257_samples', 'unwritable_output_refused', 'with-o-naming-the-input-file', 'refusals_with-o-naming-the-input-file', 'files_of_4096+_rows']
+                'stored_rows_compared', 'deletions_leaving_255..257_samples', 'rows_present_in_exactly_256_remaining_samples', 'unwritable_output_refused', 'with-o-naming-the-input-file', 'refusals_with-o-naming-the-input-file', 'files_of_4096+_rows']
             for t in ('quick', 'thorough')}
 
 
@@ -62,11 +62,11 @@ def run_case(desc, ctx):
     k, rcmode, ns = desc['k'], desc['rc'], desc['ns']
     rng = random.Random(desc['seed'])
     if desc.get('crowd'):
-        base = G.rseq(rng, 4 * k)
+        base = G.rseq(rng, 12 * k)
         samples = []
         for _ in range(ns):
             t = list(base)
-            if rng.random() < 0.3:
+            if rng.random() < 0.03:                   # most k-mers stay present in every sample: rows counted 255, 256, 257 times
                 t[rng.randrange(len(t))] = rng.choice('ACGT')
             samples.append([''.join(t)] + ([G.rseq(rng, k + 2)] if rng.random() < 0.1 else []))
     elif desc.get('large'):
@@ -227,6 +227,8 @@ def run_case(desc, ctx):
                 removed = len(Tcur) - len(model)
                 res.count('ambiguous_cells_in_files', sum(1 for r in Tcur.values() for x in r if M.is_ambig(x)))
                 res.count('kmers_removed', removed)
+                if desc.get('crowd'):
+                    res.count('rows_present_in_exactly_256_remaining_samples', sum(1 for r in model.values() if sum(1 for x in r if x != '-') == 256))
                 nonadj = len(dn) >= 2 and any(b2 - a2 > 1 for a2, b2 in zip(dn, dn[1:]))
                 if nonadj:
                     res.count('nonadjacent_deletions')
